@@ -250,6 +250,7 @@ def bcastKind : CKind → OutKind
   | .set => .same .set
   | .frozenset => .same .frozenset
   | .deque => .same .deque
+  | .sub b c => .same (.sub b c)          -- the argument's own class, not its builtin base
 
 def BOut.kind : BOut → OutKind
   | .value _ => .value
